@@ -585,7 +585,237 @@ def run_11(ctx, w, c, text, model, extra=None):
     return res
 
 
-GENS = {'2x': (gen_2x, run_2x), '12': (gen_12, run_12), '11': (gen_11, run_11)}
+# ------------------------------------------------------------------------------------------------ ADF15
+TAGS15 = {'ne': 'pcm3', 'te': 'id', 'rate': 'cm3', 'wl': 'ang', '_matrix': ('rate',), '_scalar': ('wl',)}
+L_LOOKUP = 'SPDFGHIKLMNOQR'
+CLS15 = {'EXCIT': 'excitation', 'RECOM': 'recombination', 'CHEXC': 'thermalcx'}
+
+
+def e2(x):
+    """1PE9.2-style token"""
+    return '%.2E' % x
+
+
+def level_key(s):
+    if s.startswith('n'):
+        return int(s[1:])
+    _, conf, spin, l, j = s.split('~')
+    return conf.replace('_', ' ') + ' ' + spin + L_LOOKUP[int(l)] + j
+
+
+def gen_15(ctx, rng, absent=False):
+    from cherab.core.atomic import hydrogen, deuterium, helium, carbon, neon, nitrogen, beryllium
+    mode = rng.choice(['hydrogen', 'hydrogen-like', 'full', 'full', 'full-nodot', 'hf-hydrogen', 'hf-hydrogen-like', 'bnd'])
+    hf = None
+    fname = None
+    if mode == 'hydrogen':
+        element, charge, dialect = hydrogen, 0, 'h'
+    elif mode == 'hydrogen-like':
+        element, charge = rng.choice([(helium, 1), (carbon, 5), (neon, 9), (beryllium, 3)])
+        dialect = 'hl'
+    elif mode in ('full', 'full-nodot'):
+        element, charge = rng.choice([(carbon, 2), (carbon, 1), (nitrogen, 3), (neon, 6), (helium, 0), (beryllium, 1)])
+        dialect = 'f1' if mode == 'full' else 'f0'
+    elif mode == 'hf-hydrogen':
+        element, charge = rng.choice([(carbon, 2), (helium, 1), (neon, 6)])
+        dialect, hf = 'h', 'hydrogen'
+    elif mode == 'hf-hydrogen-like':
+        element, charge = rng.choice([(carbon, 2), (neon, 6), (helium, 0)])
+        dialect, hf = 'hl', 'hydrogen-like'
+    else:   # one-electron ion, "bnd" file with the hydrogen index format
+        element, charge = rng.choice([(helium, 1), (carbon, 5)])
+        dialect = 'h'
+        fname = 'adf15/pec96#%s/pec96#%s_bnd#%s%d.dat' % (element.symbol.lower(), element.symbol.lower(), element.symbol.lower(), charge)
+    nblocks = rng.choice([1, 2, 3, 4, 6, 12, rng.randint(1, 12)])
+    full = dialect in ('f1', 'f0')
+    cfgs = []
+    if full:
+        ncfg = rng.randint(2, 8)
+        used = set()
+        for k in range(1, ncfg + 1):
+            while True:
+                orbs = ['1s2'] + ['%d%s%d' % (rng.randint(2, 4), rng.choice('spdfg'), rng.randint(1, 6)) for _ in range(rng.randint(0, 2))]
+                c = (' '.join(orbs), str(rng.choice([1, 2, 3, 4])), rng.randint(0, 4), rng.choice(['0.5', '1.0', '1.5', '2.0', '4.5']))
+                if c not in used:
+                    used.add(c)
+                    break
+            cfgs.append((k,) + c)
+    blocks, idx = [], []
+    seen = set()
+    toks_b = []
+    for b in range(nblocks):
+        isel = b + 1
+        typ = rng.choice(['EXCIT', 'EXCIT', 'RECOM', 'CHEXC'])
+        while True:
+            if full:
+                up = rng.randint(2, len(cfgs))
+                lo = rng.randint(1, up - 1)
+            else:
+                up = rng.randint(2, 20)
+                lo = rng.randint(1, up - 1)
+            if (typ, up, lo) not in seen:
+                seen.add((typ, up, lo))
+                break
+        nN, nT = grid_size(rng, ctx, 24), grid_size(rng, ctx, 30)
+        if nblocks > 6:
+            nN, nT = min(nN, 12), min(nT, 12)
+        ne = [e2(10 ** v) for v in increasing(rng, nN, 7, 15)]
+        te = [e2(10 ** v) for v in increasing(rng, nT, -0.7, 4)]
+        rate = [[e2(rnd_pos(rng, -14, -7)) for _ in range(nT)] for _ in range(nN)]
+        wl = rng.uniform(300, 9000)
+        blocks.append(dict(isel=isel, typ=typ, up=up, lo=lo, ne=ne, te=te, rate=rate, wl_idx='%.2f' % wl, wl_hdr='%.1f' % wl))
+    drop = rng.randrange(nblocks) if absent else None
+    n_present = 0
+    for i, b in enumerate(blocks):
+        if i == drop:
+            continue
+        n_present += 1
+        toks_b += [str(b['isel']), b['wl_hdr'], b['typ'], str(len(b['ne'])), str(len(b['te']))] + b['ne'] + b['te'] + [t for row in b['rate'] for t in row]
+    toks_c = [str(len(cfgs))]
+    for (k, conf, spin, l, j) in cfgs:
+        toks_c += [str(k), conf.replace(' ', '_'), spin, str(l), j]
+    toks_i = [str(len(blocks))]
+    for b in blocks:
+        toks_i += [str(b['isel']), b['wl_idx'], str(b['up']), str(b['lo']), b['typ']]
+    isH = element == hydrogen
+    line = ' '.join(['adf15', {None: '-', 'hydrogen': 'h', 'hydrogen-like': 'hl'}[hf], '1' if isH else '0',
+                     '1' if element.atomic_number - charge == 1 else '0', '1' if fname else '0', dialect, str(n_present)]
+                    + toks_b + toks_c + toks_i)
+
+    def lev(k):
+        if full:
+            (_, conf, spin, l, j) = cfgs[k - 1]
+            return conf + ' ' + spin + L_LOOKUP[l] + j
+        return k
+    want = {'excitation': {}, 'recombination': {}, 'thermalcx': {}, 'wavelength': {}}
+    for b in blocks:
+        tr = (lev(b['up']), lev(b['lo']))
+        want[CLS15[b['typ']]][tr] = {'ne': ('pcm3', b['ne']), 'te': ('id', b['te']), 'rate': ('cm3', b['rate'])}
+        want['wavelength'][tr] = {'wl': ('ang', b['wl_idx'])}
+    return dict(fmt='15', kind=mode + (':absent' if absent else ''), line=line, element=element, charge=charge, hf=hf, fname=fname, want=want,
+                absent=absent, sizes=(nblocks, tuple((len(b['ne']), len(b['te'])) for b in blocks[:3]), mode),
+                desc=dict(format='adf15', mode=mode, element=element.symbol, charge=charge, header_format=hf, file_name=fname,
+                          blocks=[(b['isel'], b['typ'], len(b['ne']), len(b['te'])) for b in blocks], dropped_block=(drop + 1) if absent else None))
+
+
+def run_15(ctx, w, c, text, model, extra=None):
+    from cherab.openadas import parse as P, install as I, repository as R
+    from cherab.openadas.repository.utility import DEFAULT_REPOSITORY_PATH
+    from cherab.core.atomic import hydrogen
+    rel, path = w.write(text, c['fname'])
+    el, ch, hf = c['element'], c['charge'], c['hf']
+    st, r = call(P.parse_adf15, el, ch, path, header_format=hf)
+    res = dict(parse_status=st)
+    if c['absent']:
+        res['oracle'] = (st == 'RuntimeError', 'C08:adf15:absent-block-not-rejected',
+                         'parse_adf15 on a file whose index lists block %s without data gave %s' % (c['desc']['dropped_block'], st))
+        if model != 'err ' + st:
+            res['impl_vs_model'] = 'impl %s, model %s' % (st, model[:60])
+        st2, e = quiet(I.install_adf15, el, ch, rel, repository_path=w.repo, adas_path=w.adas, header_format=hf)
+        res['install'] = (st2 == 'RuntimeError', 'C08:adf15:absent-block-installed', 'install_adf15 gave %s' % st2)
+        return res
+    if st != 'ok':
+        res['oracle'] = (False, 'C08:adf15:parse-raised:' + c['kind'], 'parse_adf15 raised %s: %s' % (st, r))
+        if model != 'err ' + st:
+            res['impl_vs_model'] = 'impl raised %s, model %s' % (st, model[:40])
+        return res
+    rates, wls = r
+    want = c['want']
+
+    def flat(rr):
+        out = {'excitation': {}, 'recombination': {}, 'thermalcx': {}, 'wavelength': {}}
+        for cls in ('excitation', 'recombination', 'thermalcx'):
+            if cls in rates:
+                for e_, chs in rates[cls].items():
+                    for c_, trs in chs.items():
+                        if e_ != el or c_ != ch:
+                            out[cls][('?', str(e_), c_)] = {}
+                        for tr, d in trs.items():
+                            out[cls][tr] = d
+        for e_, chs in wls.items():
+            for c_, trs in chs.items():
+                for tr, v in trs.items():
+                    out['wavelength'][tr] = {'wl': v}
+        return out
+    got = flat(r)
+
+    def diff(got, want):
+        for cls in want:
+            if set(got[cls].keys()) != set(want[cls].keys()):
+                return '%s transitions %r want %r' % (cls, sorted(got[cls].keys(), key=str), sorted(want[cls].keys(), key=str))
+            for tr in want[cls]:
+                dd = cmp_struct(got[cls][tr], want[cls][tr])
+                if dd:
+                    return '%s %r %s' % (cls, tr, dd)
+        return None
+    d = diff(got, want)
+    res['oracle'] = (d is None, 'C08:adf15:parse:' + c['kind'].split(':')[0], 'parse_adf15 (%s): %s' % (c['kind'], d))
+    if model.startswith('ok'):
+        md = {'excitation': {}, 'recombination': {}, 'thermalcx': {}, 'wavelength': {}}
+        for key, body in split_model_blocks(model):
+            up, _, rest = body.partition(';')
+            lo, _, rest = rest.partition(';')
+            md[key][(level_key(up), level_key(lo))] = parse_model_struct(rest, TAGS15)
+        res['impl_vs_model'] = diff(got, md)
+        res['model_vs_tables'] = None if md == want else 'model parse differs from the generated tables'
+    else:
+        res['impl_vs_model'] = 'model says %s, implementation parsed the file' % model
+    # ---- install + read back
+    st2, e = quiet(I.install_adf15, el, ch, rel, repository_path=w.repo, adas_path=w.adas, header_format=hf)
+    if st2 != 'ok':
+        res['install'] = (False, 'C08:adf15:install-raised', 'install_adf15 raised %s: %s' % (st2, e))
+        return res
+    d2_ = None
+    for cls, getter in (('excitation', R.get_pec_excitation_rate), ('recombination', R.get_pec_recombination_rate)):
+        for tr, stc in want[cls].items():
+            st3, back = call(getter, el, ch, tr, w.repo)
+            if st3 != 'ok':
+                d2_ = '%s %r: get raised %s' % (cls, tr, st3)
+                break
+            dd = cmp_struct(back, stc)
+            if dd:
+                d2_ = '%s %r %s' % (cls, tr, dd)
+                break
+    for tr, stc in want['thermalcx'].items():
+        st3, back = call(R.get_pec_thermal_cx_rate, hydrogen, 0, el, ch + 1, tr, w.repo)
+        if st3 != 'ok':
+            # C06 finding (DESIGN §6 #5): install_adf15 drops repository_path for thermal-CX PECs; HOME is redirected, read it there
+            st3, back = call(R.get_pec_thermal_cx_rate, hydrogen, 0, el, ch + 1, tr, DEFAULT_REPOSITORY_PATH)
+            if st3 == 'ok':
+                ctx.count('c06-finding:thermalcx-pec-written-to-default-repository')
+        if st3 != 'ok':
+            d2_ = d2_ or 'thermalcx %r: get raised %s (also under the default repository)' % (tr, st3)
+            break
+        rate3 = np.asarray(back['rate'], dtype=float)
+        ok3 = rate3.ndim == 3 and rate3.shape[2] == 2 and list(np.asarray(back['td'], dtype=float)) == [0.01, 10000.0]
+        dd = None
+        if not ok3:
+            dd = 'thermal CX PEC is not (ne, te, 2) on td=[0.01, 1e4]: shape %r' % (rate3.shape,)
+        else:
+            for k in (0, 1):
+                dd = dd or cmp_struct({'ne': back['ne'], 'te': back['te'], 'rate': rate3[:, :, k]}, stc)
+        if dd:
+            d2_ = d2_ or 'thermalcx %r %s' % (tr, dd)
+            break
+    for tr, stc in want['wavelength'].items():
+        st3, back = call(R.get_wavelength, el, ch, tr, w.repo)
+        if st3 != 'ok':
+            d2_ = d2_ or 'wavelength %r: get raised %s' % (tr, st3)
+            break
+        dd = cmp_struct({'wl': back}, stc)
+        if dd:
+            d2_ = d2_ or 'wavelength %r %s' % (tr, dd)
+            break
+    if d2_ is None:
+        st4, _ = call(R.get_pec_excitation_rate, el, ch, (98, 97), w.repo)
+        if st4 != 'RuntimeError':
+            d2_ = 'get of an absent transition gave %s' % st4
+    res['install'] = (d2_ is None, 'C08:adf15:install:' + (d2_ or '').split(' ')[0], 'install_adf15 -> get_*: %s' % d2_)
+    shutil.rmtree(os.path.join(DEFAULT_REPOSITORY_PATH, 'pec'), ignore_errors=True)
+    return res
+
+
+GENS = {'2x': (gen_2x, run_2x), '12': (gen_12, run_12), '11': (gen_11, run_11), '15': (gen_15, run_15)}
 
 
 # ------------------------------------------------------------------------------------------------ driver
@@ -622,6 +852,8 @@ def _streams(ctx, w):
     for i in range(ctx.n(120, 1800)):
         wrong = [None] * 7 + ['element', 'isotope', 'number']
         cases.append(gen_11(ctx, rng, wrong=wrong[i % 10], dup=(i % 10 == 3)))
+    for i in range(ctx.n(120, 1800)):
+        cases.append(gen_15(ctx, rng, absent=(i % 10 == 9)))
     w.fresh_repo()
     outs = ctx.driver([c['line'] for c in cases])
     ctx.traces = 0
